@@ -1,0 +1,18 @@
+//go:build verif
+
+package url
+
+// Contracts for property C36: a URL whose user, host or container component
+// could only be passed to ssh / scp / docker as an option (it starts with '-')
+// has to be rejected by validation, because the transports place these
+// components in the argument vector as words of their own, without a "--"
+// separator (see the contracts in pkg/agent/transport/ssh and .../docker,
+// which need exactly this as their precondition). Comment-only file, compiled
+// only under the "verif" build tag. Byte 45 = '-'.
+
+//@ pred opsafe(s) = len(s) >= 1 && s[0] != 45
+
+//@ func (*URL).EnsureValid
+//@   ensures[hostpresent] result == nil && (u.Protocol == Protocol_SSH || u.Protocol == Protocol_Docker) ==> len(u.Host) >= 1
+//@   ensures[nooption] result == nil && u.Protocol == Protocol_SSH ==> opsafe(u.Host) && (u.User == "" || opsafe(u.User))
+//@   ensures[nooption] result == nil && u.Protocol == Protocol_Docker ==> opsafe(u.Host)
